@@ -12,113 +12,11 @@ use serde_json::json;
 use std::io::Write as _;
 use std::sync::atomic::{AtomicU64, Ordering};
 use vchecks::common::*;
+use vchecks::strip_sys::*;
 use vexplore::bfs::{self, Limits, System};
 use vexplore::evidence::*;
 use vexplore::util::*;
 use vmodel::strip::StripModel;
-
-/// Product system: StripBytes fed one token (a byte string) at a time.
-pub struct StripBytesSys {
-    pub tokens: Vec<Vec<u8>>,
-    pub label: String,
-}
-
-pub fn run_strip_bytes(imp: &mut StripBytes, model: &mut StripModel, chunk: &[u8]) -> Result<Vec<u8>, String> {
-    let pieces: Vec<&[u8]> = imp.strip_next(chunk).collect();
-    let flags = emitted_flags(chunk, &pieces)?;
-    let out: Vec<u8> = pieces.concat();
-    if let Some(b) = out.iter().find(|&&b| vmodel::strip::FORBIDDEN(b)) {
-        return Err(format!("output contains forbidden control byte 0x{b:02x} (output {})", show(&out)));
-    }
-    model.check_flags(chunk, &flags).map_err(|m| format!("{m} (chunk {} -> output {})", show(chunk), show(&out)))?;
-    Ok(out)
-}
-
-impl System for StripBytesSys {
-    type State = (StripBytes, StripModel);
-    fn name(&self) -> String {
-        self.label.clone()
-    }
-    fn alphabet_len(&self) -> usize {
-        self.tokens.len()
-    }
-    fn token_label(&self, t: usize) -> String {
-        hex(&self.tokens[t])
-    }
-    fn init(&self) -> Vec<Self::State> {
-        vec![(StripBytes::new(), StripModel::default())]
-    }
-    fn key(&self, s: &Self::State) -> u64 {
-        hash_debug(s)
-    }
-    fn step(&self, s: &Self::State, t: usize) -> Result<(Self::State, u64), String> {
-        let (mut imp, mut model) = s.clone();
-        let out = run_strip_bytes(&mut imp, &mut model, &self.tokens[t])?;
-        Ok(((imp, model), hash_of(&out)))
-    }
-}
-
-/// Product system: StripStr fed one token (a str) at a time.
-pub struct StripStrSys {
-    pub tokens: Vec<String>,
-}
-
-pub fn run_strip_str(imp: &mut StripStr, model: &mut StripModel, chunk: &str) -> Result<Vec<u8>, String> {
-    let pieces: Vec<&str> = imp.strip_next(chunk).collect();
-    for p in &pieces {
-        if std::str::from_utf8(p.as_bytes()).is_err() {
-            return Err(format!("returned piece is not valid UTF-8: {:02x?}", p.as_bytes()));
-        }
-    }
-    let bpieces: Vec<&[u8]> = pieces.iter().map(|p| p.as_bytes()).collect();
-    let flags = emitted_flags(chunk.as_bytes(), &bpieces)?;
-    let out: Vec<u8> = bpieces.concat();
-    if let Some(b) = out.iter().find(|&&b| vmodel::strip::FORBIDDEN(b)) {
-        return Err(format!("output contains forbidden control byte 0x{b:02x} (output {})", show(&out)));
-    }
-    model
-        .check_flags(chunk.as_bytes(), &flags)
-        .map_err(|m| format!("{m} (chunk {} -> output {})", show(chunk.as_bytes()), show(&out)))?;
-    Ok(out)
-}
-
-impl System for StripStrSys {
-    type State = (StripStr, StripModel);
-    fn name(&self) -> String {
-        "StripStr::strip_next/chars".into()
-    }
-    fn alphabet_len(&self) -> usize {
-        self.tokens.len()
-    }
-    fn token_label(&self, t: usize) -> String {
-        hex(self.tokens[t].as_bytes())
-    }
-    fn init(&self) -> Vec<Self::State> {
-        vec![(StripStr::new(), StripModel::default())]
-    }
-    fn key(&self, s: &Self::State) -> u64 {
-        hash_debug(s)
-    }
-    fn step(&self, s: &Self::State, t: usize) -> Result<(Self::State, u64), String> {
-        let (mut imp, mut model) = s.clone();
-        let out = run_strip_str(&mut imp, &mut model, &self.tokens[t])?;
-        Ok(((imp, model), hash_of(&out)))
-    }
-}
-
-pub fn char_alphabet() -> Vec<String> {
-    let mut v: Vec<String> = vec![];
-    // ASCII class representatives
-    for b in class_alphabet().0 {
-        if b < 0x80 {
-            v.push((b as char).to_string());
-        }
-    }
-    for c in ['é', '世', '😀', '\u{9c}', '\u{80}', '\u{85}', '\u{a0}'] {
-        v.push(c.to_string());
-    }
-    v
-}
 
 /// One-shot checks from Ground: strip_bytes iterator / into_vec, StripStream, AutoStream::never.
 fn oneshot_bytes(input: &[u8]) -> Result<(), (String, String)> {
